@@ -10,7 +10,7 @@ import (
 	"verif/mc"
 )
 
-var c08Chunks = []int{1, 2, 3, 5, 7, 13, 64, 100, 4095}
+var c08Chunks = []int{1, 2, 3, 5, 7, 13, 64, 100, 4095, 4096, 5000, 1 << 20}
 
 func c08Ref(e *roEntry, data []byte) roRun {
 	pristine()
@@ -153,10 +153,12 @@ func init() {
 			}
 			sp := []mc.Space{
 				{Name: "uniform-chunking", H: c08Uniform(seeds()), NoLevels: true, Isolate: true,
-					Rule: "every (seed, accepting entry) x max chunk {1,2,3,5,7,13,64,100,4095} x data-with-EOF {no,yes}; compared with the in-memory run"},
+					Rule: "every (seed, accepting entry) x max chunk {1,2,3,5,7,13,64,100,4095,4096,5000,unlimited} x data-with-EOF {no,yes}; compared with the in-memory run"},
 				{Name: "short-reads", H: c08ShortReads(ss), Bound: b, Isolate: true,
 					Rule: "every Read call index gets the deviations {1 byte, half, len-1, data-with-EOF}; up to the bound simultaneously; trivial = the undisturbed run"},
 			}
+			sp = append(sp, mc.Space{Name: "uniform-chunking-large-payloads", H: c08Uniform(bigSeeds()), NoLevels: true, Isolate: true,
+				Rule: "the large-payload seeds (previews of 10-70 KB, also as the last box of the file; 9 KB XMP; 5 KB strings; 60 KB JPEG segments) x the same chunk sizes x data-with-EOF"})
 			if tier == "thorough" {
 				sp = append(sp, mc.Space{Name: "malformed-inputs-chunked", H: c08Malformed(genSeeds()), Bound: 1, Isolate: true,
 					Rule: "every single-field malformation of every generated seed under three chunking policies; error paths must agree"})
